@@ -2,7 +2,7 @@
 From Coq Require Import ZArith List Bool Lia.
 From RecordUpdate Require Import RecordUpdate.
 From SimVerif Require Import Model.Base Model.Env Model.FamEnv Model.RM Model.Maint Model.FloorTypes Model.Floor Model.FamFloor.
-From SimVerif Require Import Proofs.FloorSteps Proofs.FloorInv Proofs.FloorSys Proofs.FloorProc Proofs.MaintInv.
+From SimVerif Require Import Proofs.FloorReach Proofs.FloorSteps Proofs.FloorInv Proofs.FloorSys Proofs.FloorProc Proofs.MaintInv.
 Import ListNotations.
 Open Scope Z_scope.
 
@@ -64,6 +64,10 @@ Theorem C13_work_order_window : forall nw wo costv durv m,
   MSched (nw + durv) P_FINISH_WORK (MFinish wo) :: MData L_START_WORK [nw; wo_target wo; wo_tag wo; wo_info wo] :: m_out m.
 Proof. intros. destruct (m_start_frame nw wo costv durv m) as [_ [_ [_ [_ [_ [_ O]]]]]]. exact O. Qed.
 
+(** the clock invariant in every reachable state of every well-formed scenario *)
+Theorem C13_clock_invariant_always : forall sc s d x, reach_fl sc s -> aget d (f_devs (fst s)) = Some x -> AcctInv x.
+Proof. intros sc s d x H Hx. exact (proj1 (proj2 (proj2 (proj2 (proj2 (reach_dev sc s d x H Hx)))))). Qed.
+
 Print Assumptions C13_shut_accepts_nothing.
 Print Assumptions C13_shut_releases_nothing.
 Print Assumptions C13_failure_effect.
@@ -76,6 +80,7 @@ Print Assumptions C13_accounting_event.
 Print Assumptions C13_accounting_time.
 Print Assumptions C13_work_order_window.
 
+Print Assumptions C13_clock_invariant_always.
 (** Non-vacuity: a processor that worked 8, was shut down 16, then restored: uptime 8 at time 24, and the
     invariant holds along the way. *)
 Example C13_nonvacuous :
